@@ -10,7 +10,7 @@ from symx.api import Harness, Raised, register
 from .common import _edges, declare_cells, declare_edges, getcell, nested, product_indices, zsum
 
 DERIV_1D = ["copy", "add", "mul", "div", "normalize", "merge", "merge1", "slice", "mask", "idxarray", "json", "sum1", "sub"]
-DERIV_2D = ["copy", "add", "mul", "T", "partial", "accumulate", "projection", "select_int", "select_slice", "merge", "json"]
+DERIV_2D = ["copy", "add", "mul", "T", "partial", "accumulate", "projection", "projection_all", "select_int", "select_slice", "merge", "json"]
 MUTS = ["fill", "fill_n", "iadd", "imul", "idiv", "dtype", "meta", "merge_inplace"]
 
 
@@ -114,6 +114,8 @@ class _Base(Harness):
             return h.accumulate(0)
         if d == "projection":
             return h.projection(0)
+        if d == "projection_all":      # every axis kept: nothing is summed, the result is still an object of its own
+            return h.projection(0, 1)
         if d == "select_int":
             return h[0]
         if d == "select_slice":
@@ -225,6 +227,9 @@ class C12Static1D(_Base):
         # both operands carry identical metadata (name, title, axis name, custom entries), then metadata of one side is edited
         for d, side in itertools.product(["add", "sub"], ("derived", "source")):
             yield f"1d-{d}-meta-{side}-samemeta", dict(deriv=d, mut="meta", side=side, same_meta=True)
+        # operands of different element types (int source with a float operand and the reverse): the result is promoted, neither operand is touched
+        for d, mixed in itertools.product(["add", "sub"], ("gfloat", "hfloat")):
+            yield f"1d-{d}-fill-derived-{mixed}", dict(deriv=d, mut="fill", side="derived", **{mixed[0] + "dtype": "float"})
 
     def declare(self, cx, p):
         x = {"f": declare_cells(cx, "f", [3], "int"), "q": declare_cells(cx, "q", [3], "int"), "e": declare_edges(cx, "e", 3), "u": cx.int("u", 0), "o": cx.int("o", 0),
@@ -241,10 +246,11 @@ class C12Static1D(_Base):
         H1 = E.mod("physt.histogram1d").Histogram1D
         St = E.mod("physt.statistics").Statistics
         e = np.asarray(x["e"])
-        h = H1(e, np.asarray(x["f"], dtype=int), np.asarray(x["q"], dtype=int), underflow=x["u"], overflow=x["o"], name="src", title="t", axis_name="ax",
+        hdt = float if p.get("hdtype") == "float" else int
+        h = H1(e, np.asarray(x["f"], dtype=hdt), np.asarray(x["q"], dtype=hdt), underflow=x["u"], overflow=x["o"], name="src", title="t", axis_name="ax",
                stats=St(sum=1.0, sum2=2.0, min=0.0, max=1.0, weight=3.0), custom="c", keep_missed=p.get("keep", True))
         gkw = dict(name="src", title="t", axis_name="ax", custom="c") if p.get("same_meta") else {}
-        g = H1(np.asarray(x["e"]), np.asarray(x["g"], dtype=int), keep_missed=p.get("keep", True), **gkw)
+        g = H1(np.asarray(x["e"]), np.asarray(x["g"], dtype=float if p.get("gdtype") == "float" else int), keep_missed=p.get("keep", True), **gkw)
         return h, g
 
 
